@@ -77,6 +77,10 @@ func c13Run(u *vfUnit) {
 		fmu.Lock()
 		defer fmu.Unlock()
 		if path == failPath && failing[off] && !(partial && !write) {
+			if off%3 == 1 {
+				// a backend whose source dropped (io.ReadFull style): still a failure, never the end of the file
+				return fmt.Errorf("fail@%d: %w", off, io.ErrUnexpectedEOF)
+			}
 			return fmt.Errorf("fail@%d", off)
 		}
 		return nil
